@@ -22,5 +22,6 @@ func TestWorker(t *testing.T) {
 		"C20": checkC20,
 		"C11": checkC11,
 		"C12": checkC12,
+		"C44": checkC44,
 	})
 }
